@@ -131,8 +131,31 @@ def run_ident(case):
             if df is not None:
                 df = df.copy(data=rngc.randint(0, top // 4, size=shp).astype(dt))
             labels.append("unsigned_counts")
+        shift = [None, None, "x_one_pixel", "xy_fraction", "z_label"][case["seed"] % 5]
+        if shift:
+            # the background (and the dark image) taken with another origin: same shape and spacing, other coordinates
+            sx_ = float(bg.x[1] - bg.x[0]) if bg.sizes["x"] > 1 else 1.0
+            if shift == "x_one_pixel":
+                bg = bg.assign_coords(x=bg.x.values + sx_)
+            elif shift == "xy_fraction":
+                bg = bg.assign_coords(x=bg.x.values + 0.3 * sx_, y=bg.y.values - 7.0 * sx_)
+                if df is not None:
+                    df = df.assign_coords(y=df.y.values + 2.0 * sx_)
+            else:
+                bg = bg.assign_coords(z=bg.z.values + 1.5)
+            labels.append("background_other_origin")
         fr, fb = det_fingerprint(raw), det_fingerprint(bg)
-        r = bg_correct(raw, bg, df)
+        try:
+            r = bg_correct(raw, bg, df)
+        except Exception as e:
+            if shift and type(e).__name__ == "BadImage":
+                # refusing images whose coordinates differ is a clean outcome too (rounding of shifted coordinates can
+                # change the spacing read off them)
+                return Outcome(None, False, labels + ["refused_BadImage"], skipped=True)
+            raise
+        if r.values.shape != raw.values.shape:
+            return Outcome(failure("bg_correct_shape", "bg_correct of images of shape %r returns shape %r (background with %s)" % (raw.values.shape, r.values.shape, shift or "the same coordinates"),
+                                   shift=str(shift)), True, labels)
         d = df.values.astype(float) if df is not None else 0.0
         want = (raw.values.astype(float) - d) / (bg.values.astype(float) - d)
         if not (np.abs(r.values - want).max() <= 1e-14 * np.abs(want).max() * TOLX):
